@@ -131,18 +131,21 @@ func VH_C16_STLBytes() {
 	h, m, s, f := int64(b[0]), int64(b[1]), int64(b[2]), int64(b[3])
 	H, M, S := int64(time.Hour), int64(time.Minute), int64(time.Second)
 	vassert(h == d/H, "C16 stl: hours field")
-	vassert(m == d%H/M && m < 60, "C16 stl: minutes field below 60")
-	vassert(s == d%M/S && s < 60, "C16 stl: seconds field below 60")
-	vassert(f == d%S*int64(fr)/S && f < int64(fr), "C16 stl: frame field is the latest frame not after d, below the frame rate")
+	vassert(vand(m == d%H/M, m < 60), "C16 stl: minutes field below 60")
+	vassert(vand(s == d%M/S, s < 60), "C16 stl: seconds field below 60")
+	vassert(vand(f == d%S*int64(fr)/S, f < int64(fr)), "C16 stl: frame field is the latest frame not after d, below the frame rate")
 	vreach("formatted")
 	p := int64(parseDurationSTLBytes(b, fr))
 	base := h*H + m*M + s*S
 	// exact frame instant is base + f/fr seconds; p must be within one nanosecond of it
 	diff := (p-base)*int64(fr) - f*S
-	vassert(diff >= -int64(fr) && diff <= int64(fr), "C16 stl: reader maps the timecode to within 1ns of the frame instant")
+	vassert(vand(diff >= -int64(fr), diff <= int64(fr)), "C16 stl: reader maps the timecode to within 1ns of the frame instant")
 	vreach("parsed")
 	b2 := formatDurationSTLBytes(time.Duration(p), fr)
-	vassert(len(b2) == 4 && b2[0] == b[0] && b2[1] == b[1] && b2[2] == b[2] && b2[3] == b[3], "C16 stl: second write identical")
+	vassert(len(b2) == 4, "C16 stl: second write has four bytes")
+	if len(b2) == 4 {
+		vassert(vand(vand(b2[0] == b[0], b2[1] == b[1]), vand(b2[2] == b[2], b2[3] == b[3])), "C16 stl: second write identical")
+	}
 	vreach("end")
 }
 
@@ -162,7 +165,7 @@ func VH_C16_STLString() {
 	vassert(err == nil, "C16 stl string: reader accepts the rendering")
 	base := d/H*H + d%H/M*M + d%M/S*S
 	diff := (int64(p)-base)*int64(fr) - f*S
-	vassert(diff >= -int64(fr) && diff <= int64(fr), "C16 stl string: reads back to within 1ns of the frame instant")
+	vassert(vand(diff >= -int64(fr), diff <= int64(fr)), "C16 stl string: reads back to within 1ns of the frame instant")
 	str2 := formatDurationSTL(p, fr)
 	vassert(veqstr(str2, str), "C16 stl string: second write identical")
 	vreach("end")
